@@ -38,10 +38,12 @@ UnsignedOf(T) == CASE T \in {"i8", "u8"} -> "u8" [] T \in {"i16", "u16"} -> "u16
 SignedOf(T) == CASE T \in {"i8", "u8"} -> "i8" [] T \in {"i16", "u16"} -> "i16"
                  [] T \in {"i32", "u32"} -> "i32" [] OTHER -> "i64"
 
-(* 2^n for 0 <= n <= 30 (a constant function: evaluated once) *)
-RECURSIVE P2r(_)
-P2r(n) == IF n = 0 THEN 1 ELSE 2 * P2r(n - 1)
-P2 == Tabulated([n \in 0..30 |-> P2r(n)])
+(* 2^n for 0 <= n <= 30.  A literal table: TLC pre-computes constant definitions only when they do
+   not involve RECURSIVE operators. *)
+P2T == <<1, 2, 4, 8, 16, 32, 64, 128, 256, 512, 1024, 2048, 4096, 8192, 16384, 32768, 65536, 131072,
+         262144, 524288, 1048576, 2097152, 4194304, 8388608, 16777216, 33554432, 67108864,
+         134217728, 268435456, 536870912, 1073741824>>
+P2 == Tabulated([n \in 0..30 |-> P2T[n + 1]])
 
 Small(T) == Bits(T) <= 30   \* values of T are TLC integers
 
